@@ -246,7 +246,7 @@ EXTRA = {
     "C06": "Also: all-zero / all-0xFF keys, nonces, messages; unauthenticated decryption in the same splits.",
     "C07": "Also: `mlar create` with 3 and 40/300 recipients (default layers included); a destination failing once with the writer driven on (64-byte chunks, telling names).",
     "C08": "Also: sign-boundary and small-negative lengths, subset extraction, a focused slice (damaged compressed block x any mutation x three operations), a truncation x footer slice, per-operation watchdog; every RepairLoop behaviour.",
-    "C09": "Also: over-long and exactly-at-the-limit NON-ASCII names (bytes vs characters); code->spec: every ArchiveWriter history of the repository's own test suite (entry hooks H4, trace file sink) validated by TLC against the Writer model (TraceWriter).",
+    "C09": "Also: over-long and exactly-at-the-limit NON-ASCII names (bytes vs characters); code->spec: every ArchiveWriter history of the repository's own test suite (entry hooks H5, trace file sink) validated by TLC against the Writer model (TraceWriter).",
     "C10": "Also: seeded random walks of 150 steps over the exported graph; multi-byte and prefix-related names; `fsopt` configuration; structural-byte contents.",
     "C11": "Also: seeded random walks of 200 steps; histories on streams of 17..300 (thorough 65 537) chunks and 17..40 (thorough 1 030) compressed blocks; short reads refined, not abandoned.",
     "C12": "Also: 66 000/140 000 files (ids beyond 2^16) extracted linearly, all and a subset.",
